@@ -112,6 +112,40 @@ pub fn part<E: Encodable>(name: &'static str, e: &E) -> Part {
             }
         }
     }
+    // a sink that itself uses the codec while it is being written to (a tunnel that frames what it receives, a logging
+    // writer that publishes what it saw): every `write` call first encodes a v5 property set and a v3 packet of its own
+    // on this thread, then takes the data. The part still writes exactly its own bytes.
+    if chunked.is_ok() && bytes.len() <= 70_000 {
+        struct Reentrant {
+            out: Vec<u8>,
+            nested: usize,
+        }
+        impl io::Write for Reentrant {
+            fn write(&mut self, data: &[u8]) -> io::Result<usize> {
+                let inner = v5::PublishProperties { user_properties: vec![v5::UserProperty { name: std::sync::Arc::new("seen".to_string()), value: std::sync::Arc::new(data.len().to_string()) }], content_type: Some(std::sync::Arc::new("application/octet-stream".to_string())), ..Default::default() };
+                let mut scratch: Vec<u8> = Vec::new();
+                let _ = inner.encode(&mut scratch);
+                let _ = v5::Packet::Pingreq.encode();
+                let _ = v3::Packet::Puback(mqtt_proto::Pid::default()).encode();
+                self.nested += scratch.len();
+                let n = data.len().min(7);
+                self.out.extend_from_slice(&data[..n]);
+                Ok(n)
+            }
+            fn flush(&mut self) -> io::Result<()> {
+                Ok(())
+            }
+        }
+        let mut rw = Reentrant { out: Vec::new(), nested: 0 };
+        match e.encode(&mut rw) {
+            Ok(()) => {
+                if rw.out != bytes {
+                    chunked = Err(format!("a sink that encodes packets of its own inside every write call received {} bytes instead of {} (first difference at byte {})", rw.out.len(), bytes.len(), rw.out.iter().zip(&bytes).position(|(a, b)| a != b).unwrap_or(rw.out.len().min(bytes.len()))));
+                }
+            }
+            Err(er) => chunked = Err(format!("a sink that encodes packets of its own inside every write call: {:?}", er)),
+        }
+    }
     // sinks that are too small (`&mut [u8]` and `Cursor<&mut [u8]>` with room for fewer bytes than the part needs): the
     // encoder has to fail, and what it wrote is a prefix; with exactly enough room it succeeds
     if chunked.is_ok() && !bytes.is_empty() && bytes.len() <= 70_000 {
